@@ -385,6 +385,27 @@ func init() {
 					cases = append(cases, &BCase{ID: fmt.Sprintf("L/wide-priorities=%d", v), Cfg: cfg, Sessions: []BSession{{Ops: []ProbeOp{op("get", "consumer"), opTag("tagged", "t"), opTag("tagged", "u")}}}})
 				}
 			}
+			// (M) the same thing twice in a row: equal neighbouring arguments of a decorator / constructor / call, the same
+			// decorator declared twice in succession (applied twice), the same tag twice on neighbouring services, equal
+			// neighbouring calls and fields of equal values - every one of them counts
+			{
+				rep := [][]any{{5, 5}, {"@dep", "@dep"}, {"%p%", "%p%", 3}, {"x", "x", "x"}, {nil, nil}, {true, true, false, false}, {"!tagged w", "!tagged w"}, {"@dep", "%p%", "@dep", "%p%"}, {"$gontainer", "$gontainer"}, {"!value pk.Const", "!value pk.Const"}}
+				for i, args := range rep {
+					cfg := &Cfg{Meta: stdMeta(), Params: []Param{{"p", "pv"}}}
+					cfg.Services = []Service{
+						{Name: "dep", Constructor: P("pk.New"), Args: args},
+						{Name: "sa", Constructor: P("pk.New1"), Args: args, Tags: []Tag{{Name: "t"}}, Calls: []Call{{Method: "Set1", Args: args}, {Method: "Set1", Args: args}, {Method: "With1", Args: args, Immutable: P(true)}, {Method: "With1", Args: args, Immutable: P(true)}}, Fields: []KV{{"F1", args[0]}, {"F2", args[0]}}},
+						{Name: "sb", Constructor: P("pk.New1"), Args: args, Tags: []Tag{{Name: "t"}, {Name: "u"}}},
+						{Name: "consumer", Constructor: P("pk2.New"), Args: []any{"!tagged t", "!tagged t", "!tagged u"}},
+					}
+					cfg.Services = append(cfg.Services, Service{Name: "leafw", Constructor: P("pk.New3"), Tags: []Tag{{Name: "w"}}})
+					if s, ok := args[0].(string); ok && s == "@dep" {
+						cfg.Services[0].Args = []any{"leaf", "leaf"} // no cycle through dep
+					}
+					cfg.Decorators = []Decorator{{Tag: "t", Decorator: "pk.Dec1", Args: args}, {Tag: "t", Decorator: "pk.Dec1", Args: args}, {Tag: "u", Decorator: "pk.Dec2"}, {Tag: "u", Decorator: "pk.Dec2"}, {Tag: "t", Decorator: "pk.Dec1", Args: args}}
+					cases = append(cases, &BCase{ID: fmt.Sprintf("M/repeated-neighbours=%d", i), Cfg: cfg, Sessions: []BSession{{Ops: []ProbeOp{op("get", "consumer"), opTag("tagged", "t"), opTag("tagged", "u"), op("get", "sa"), op("get", "sb"), op("get", "dep"), op("counters", "")}}}})
+				}
+			}
 			// (D) scopes of carriers
 			scopes := []*string{nil, P("shared"), P("non_shared"), P("contextual")}
 			for a := 0; a < 4; a++ {
@@ -417,6 +438,7 @@ func init() {
 				cfg.Decorators = []Decorator{{Tag: "t", Decorator: "pk.Dec1", Args: []any{"@dep", "%p%"}}, {Tag: "u", Decorator: "pk2.Dec2"}, {Tag: "t", Decorator: "pk.Dec3", Args: []any{"@dep", "%p%"}}}
 				c.Distinct("all", c.ID)
 				w.ShapeInvarianceOK(c, "tags-and-decorators", []File{{"c.yaml", cfg.YAML()}}, true)
+				w.NameInvariance(c, "tags-and-decorators", cfg)
 			})
 			runBatches(w, "c04", cases, 40, behaviourOracle)
 		},
